@@ -14,20 +14,29 @@ open KsiVerif
 
 /-! ## character classes (http_parser.c macros, strict mode) -/
 
-def lower (c : UInt8) : Nat := c.toNat ||| 0x20                       -- (unsigned char)(c | 0x20)
-def isAlpha (c : UInt8) : Bool := decide (97 ≤ lower c ∧ lower c ≤ 122)
-def isNum (c : UInt8) : Bool := decide (48 ≤ c.toNat ∧ c.toNat ≤ 57)
-def isAlphaNum (c : UInt8) : Bool := isAlpha c || isNum c
-def isHex (c : UInt8) : Bool := isNum c || decide (97 ≤ lower c ∧ lower c ≤ 102)
+/-- the classes on the octet value (`n = c` as unsigned char) -/
+def lowerN (n : Nat) : Nat := n ||| 0x20                             -- (unsigned char)(c | 0x20)
+def isAlphaN (n : Nat) : Bool := decide (97 ≤ lowerN n ∧ lowerN n ≤ 122)
+def isNumN (n : Nat) : Bool := decide (48 ≤ n ∧ n ≤ 57)
+def isAlphaNumN (n : Nat) : Bool := isAlphaN n || isNumN n
+def isHexN (n : Nat) : Bool := isNumN n || decide (97 ≤ lowerN n ∧ lowerN n ≤ 102)
 /-- `- _ . ! ~ * ' ( )` -/
-def isMark (c : UInt8) : Bool := [45, 95, 46, 33, 126, 42, 39, 40, 41].contains c.toNat
+def isMarkN (n : Nat) : Bool := [45, 95, 46, 33, 126, 42, 39, 40, 41].contains n
 /-- … `% ; : & = + $ ,` -/
-def isUserinfoChar (c : UInt8) : Bool := isAlphaNum c || isMark c || [37, 59, 58, 38, 61, 43, 36, 44].contains c.toNat
-def isSchemeChar (c : UInt8) : Bool := isAlphaNum c || [43, 45, 46].contains c.toNat
-/-- `BIT_AT(normal_url_char, c)` -/
-def isUrlChar (c : UInt8) : Bool :=
-  (Gen.normalUrlChar.getD (c.toNat / 8) 0) / 2 ^ (c.toNat % 8) % 2 == 1 || (!Gen.urlStrict && decide (c.toNat ≥ 0x80))
-def isHostChar (c : UInt8) : Bool := isAlphaNum c || c.toNat = 46 || c.toNat = 45 || (!Gen.urlStrict && c.toNat = 95)
+def isUserinfoCharN (n : Nat) : Bool := isAlphaNumN n || isMarkN n || [37, 59, 58, 38, 61, 43, 36, 44].contains n
+def isSchemeCharN (n : Nat) : Bool := isAlphaNumN n || [43, 45, 46].contains n
+/-- `BIT_AT(normal_url_char, c)`, and octets >= 0x80 in the lenient build -/
+def isUrlCharN (n : Nat) : Bool :=
+  (Gen.normalUrlChar.getD (n / 8) 0) / 2 ^ (n % 8) % 2 == 1 || (!Gen.urlStrict && decide (n ≥ 0x80))
+def isHostCharN (n : Nat) : Bool := isAlphaNumN n || n == 46 || n == 45 || (!Gen.urlStrict && n == 95)
+
+def isAlpha (c : UInt8) : Bool := isAlphaN c.toNat
+def isNum (c : UInt8) : Bool := isNumN c.toNat
+def isHex (c : UInt8) : Bool := isHexN c.toNat
+def isUserinfoChar (c : UInt8) : Bool := isUserinfoCharN c.toNat
+def isSchemeChar (c : UInt8) : Bool := isSchemeCharN c.toNat
+def isUrlChar (c : UInt8) : Bool := isUrlCharN c.toNat
+def isHostChar (c : UInt8) : Bool := isHostCharN c.toNat
 
 /-! ## `parse_url_char` -/
 
@@ -36,32 +45,34 @@ inductive S where
   | path | queryStart | query | fragmentStart | fragment
 deriving Repr, DecidableEq
 
-def serverChar (ch : UInt8) : S :=
-  if ch.toNat = 47 then .path                    -- '/'
-  else if ch.toNat = 63 then .queryStart         -- '?'
-  else if ch.toNat = 64 then .serverWithAt       -- '@'
-  else if isUserinfoChar ch || ch.toNat = 91 || ch.toNat = 93 then .server
+def serverCharN (n : Nat) : S :=
+  if n = 47 then .path                    -- '/'
+  else if n = 63 then .queryStart         -- '?'
+  else if n = 64 then .serverWithAt       -- '@'
+  else if isUserinfoCharN n || n == 91 || n == 93 then .server
   else .dead
 
-def parseUrlChar (s : S) (ch : UInt8) : S :=
-  if ch.toNat = 32 ∨ ch.toNat = 13 ∨ ch.toNat = 10 ∨ (Gen.urlStrict = true ∧ (ch.toNat = 9 ∨ ch.toNat = 12)) then .dead
+def parseUrlCharN (s : S) (n : Nat) : S :=
+  if n = 32 ∨ n = 13 ∨ n = 10 ∨ (Gen.urlStrict = true ∧ (n = 9 ∨ n = 12)) then .dead
   else match s with
     | .spacesBeforeUrl =>
-      if ch.toNat = 47 ∨ ch.toNat = 42 then .path else if isAlpha ch then .schema else .dead
-    | .schema => if isSchemeChar ch then .schema else if ch.toNat = 58 then .schemaSlash else .dead
-    | .schemaSlash => if ch.toNat = 47 then .schemaSlashSlash else .dead
-    | .schemaSlashSlash => if ch.toNat = 47 then .serverStart else .dead
-    | .serverWithAt => if ch.toNat = 64 then .dead else serverChar ch
-    | .serverStart | .server => serverChar ch
+      if n = 47 ∨ n = 42 then .path else if isAlphaN n then .schema else .dead
+    | .schema => if isSchemeCharN n then .schema else if n = 58 then .schemaSlash else .dead
+    | .schemaSlash => if n = 47 then .schemaSlashSlash else .dead
+    | .schemaSlashSlash => if n = 47 then .serverStart else .dead
+    | .serverWithAt => if n = 64 then .dead else serverCharN n
+    | .serverStart | .server => serverCharN n
     | .path =>
-      if isUrlChar ch then .path else if ch.toNat = 63 then .queryStart else if ch.toNat = 35 then .fragmentStart else .dead
+      if isUrlCharN n then .path else if n = 63 then .queryStart else if n = 35 then .fragmentStart else .dead
     | .queryStart | .query =>
-      if isUrlChar ch then .query else if ch.toNat = 63 then .query else if ch.toNat = 35 then .fragmentStart else .dead
+      if isUrlCharN n then .query else if n = 63 then .query else if n = 35 then .fragmentStart else .dead
     | .fragmentStart =>
-      if isUrlChar ch then .fragment else if ch.toNat = 63 then .fragment else if ch.toNat = 35 then .fragmentStart else .dead
+      if isUrlCharN n then .fragment else if n = 63 then .fragment else if n = 35 then .fragmentStart else .dead
     | .fragment =>
-      if isUrlChar ch then .fragment else if ch.toNat = 63 ∨ ch.toNat = 35 then .fragment else .dead
+      if isUrlCharN n then .fragment else if n = 63 ∨ n = 35 then .fragment else .dead
     | .dead => .dead
+
+def parseUrlChar (s : S) (ch : UInt8) : S := parseUrlCharN s ch.toNat
 
 /-! ## `struct http_parser_url` -/
 
@@ -153,18 +164,20 @@ inductive HS where
   | dead | userinfoStart | userinfo | hostStart | v6Start | host | v6 | v6End | portStart | port
 deriving Repr, DecidableEq
 
-def hostChar (s : HS) (ch : UInt8) : HS :=
-  let afterHost : HS := if ch.toNat = 58 then .portStart else .dead
-  let v6Body : HS := if isHex ch || ch.toNat = 58 || ch.toNat = 46 then .v6 else .dead
+def hostCharN (s : HS) (n : Nat) : HS :=
+  let afterHost : HS := if n = 58 then .portStart else .dead
+  let v6Body : HS := if isHexN n || n == 58 || n == 46 then .v6 else .dead
   match s with
-  | .userinfo | .userinfoStart => if ch.toNat = 64 then .hostStart else if isUserinfoChar ch then .userinfo else .dead
-  | .hostStart => if ch.toNat = 91 then .v6Start else if isHostChar ch then .host else .dead
-  | .host => if isHostChar ch then .host else afterHost
+  | .userinfo | .userinfoStart => if n = 64 then .hostStart else if isUserinfoCharN n then .userinfo else .dead
+  | .hostStart => if n = 91 then .v6Start else if isHostCharN n then .host else .dead
+  | .host => if isHostCharN n then .host else afterHost
   | .v6End => afterHost
-  | .v6 => if ch.toNat = 93 then .v6End else v6Body
+  | .v6 => if n = 93 then .v6End else v6Body
   | .v6Start => v6Body
-  | .port | .portStart => if isNum ch then .port else .dead
+  | .port | .portStart => if isNumN n then .port else .dead
   | .dead => .dead
+
+def hostChar (s : HS) (ch : UInt8) : HS := hostCharN s ch.toNat
 
 /-- the loop of `http_parse_host` over the server part; its verdict is ignored by the caller, so
 what matters is the field data at the point where it stops -/
